@@ -91,13 +91,20 @@ def images(rng, tier):
         yield 'meta-off', B(meta_offset=rng.choice([256 * KI, 256 * KI + 1, 300 * KI + 7, 2**20]))
         yield 'item-off', B(item_offset=rng.choice([64 * KI + 8, 65 * KI, 100000]))
         yield 'item-at-table-end', B(meta_pad_before=3, meta_pad_after=0, item_offset=32 + 32 * 4)
-        yield 'item-len', B(item_length=rng.choice([0, 4, 7, 9, 16, 65536, 65537, 2**32 - 1]))
+        for v in ([0, 4, 7, 8, 9, 16, 65536, 65537, 2**32 - 1] if _ == 0 else [rng.choice([0, 7, 9, 65537])]):
+            yield 'item-len', B(item_length=v)
         yield 'no-meta-entry', B(include_meta_entry=False)
         yield 'no-vds-entry', B(include_vds_entry=False)
         yield 'no-vds-entry-long', B(include_vds_entry=False, tail=70000)
-        yield 'region-count', B(region_count=rng.choice([0, 1, 2047, 2048, 2**32 - 1]))
-        yield 'meta-count', B(meta_count=rng.choice([0, 1, 200, 2047, 2048, 65535]))
+        # the limits, every boundary value (first round) — stored counts above/below the entries written
+        for v in ([0, 1, 2046, 2047, 2048, 2049, 2**32 - 1] if _ == 0 else [rng.choice([2047, 2048])]):
+            yield 'region-count', B(region_count=v)
+        for v in ([0, 1, 200, 2046, 2047, 2048, 65535] if _ == 0 else [rng.choice([2047, 2048])]):
+            yield 'meta-count', B(meta_count=v)
+        yield 'region-count-guid-last', B(region_count=2048, region_entries=[(imgbuild.guid_bytes(imgbuild.GUID_BAT), 2**20, 0, 0)] * 2047
+                                          + [(imgbuild.guid_bytes(imgbuild.GUID_METAREGION), 300 * KI, 2**20, 1)])
         yield 'meta-count-long', B(meta_count=rng.choice([200, 2047]), tail=70000)
+        yield 'meta-full-table', B(meta_pad_before=2046, meta_pad_after=0, item_offset=65536, tail=rng.choice([0, 8, 4096]))
         yield 'regi', B(region_sig=b'regj')
         yield 'ident', B(ident=b'vhdxfilf')
         yield 'vds-second', B(meta_pad_before=2, meta_pad_after=3)
@@ -124,6 +131,10 @@ def chunk_lists(rng, n, bounds):
     if bs:
         cuts = sorted(set(rng.sample(bs, min(len(bs), rng.choice([1, 2, 3])))))
         out.append([b - a for a, b in zip([0] + cuts, cuts)])
+    # a cut at EVERY structure boundary, and one byte past every boundary (each structure arrives split)
+    for d in (0, 1, -1):
+        cuts = sorted({min(n, max(0, b + d)) for b in bounds})
+        if cuts: out.append([b - a for a, b in zip([0] + cuts, cuts)])
     cuts = sorted(rng.randint(0, n) for _ in range(rng.randint(1, 8)))
     sz = [b - a for a, b in zip([0] + cuts, cuts)]
     out.append([x for s in sz for x in ([0, s] if rng.random() < 0.3 else [s])] + [0])
